@@ -1,7 +1,9 @@
 (* C09 (request-port part): sx entry.  Input (case impl_obs) with
-   case = (datagram (handler ...)), handler = (0 b) constant | (1 prefix) | (2 exact name);
+   case = (datagram (handler ...) sendable), handler = (0 b) constant | (1 prefix) | (2 exact name),
+          sendable = 0 when sendto() to the requester fails with OSError (source port 0);
    obs  = list of (5 code) ERROR sent to the requester | (1 filename mode options handler_index)
-          transfer started | (4) exception logged | (99 raw) anything else that was sent.
+          transfer started | (4) exception logged | (99 raw) anything else that was sent |
+          (7) the liveness probe that followed was not answered.
    Output (model_obs failed_on_model failed_on_impl). *)
 From Coq Require Import String.
 From Coq Require Import List NArith ZArith Bool.
@@ -22,6 +24,7 @@ Definition sx_action (a : action) : sx :=
   | AStart fn m o i => L [I 1; B fn; sxN (mode_num m); L (map sx_pair o); sxNat i]
   | ALogExc => L [I 4]
   | ABad raw => L [I 99; B raw]
+  | ADead => L [I 7]
   end.
 
 Definition de_action (x : sx) : option action :=
@@ -37,18 +40,22 @@ Definition de_action (x : sx) : option action :=
       end))
   | L [I 4%Z] => Some ALogExc
   | L [I 99%Z; B raw] => Some (ABad raw)
+  | L [I 7%Z] => Some ADead
   | _ => None
   end.
 
 Definition port_entry (x : sx) : sx :=
   match x with
-  | L [L [B d; hs]; ix] =>
-      match asListOf de_handler hs, asListOf de_action ix with
-      | Some hs, Some io =>
-          let m := serve_one hs d in
-          L [L (map sx_action m); L (map sxS (port_holds hs d m)); L (map sxS (port_holds hs d io))]
-      | None, _ => sxS "bad-case"
-      | _, None => sxS "bad-obs"
+  | L [L [B d; hs; sb]; ix] =>
+      match asListOf de_handler hs, asBool sb, asListOf de_action ix with
+      | Some hs, Some sendable, Some io =>
+          (* one iteration of the serve loop: recvfrom truncates the datagram to 512 bytes *)
+          let d' := firstn MAX_REQUEST_PACKET_SIZE d in
+          let m := match run_loop false hs [(sendable, d)] with [m] => m | _ => [] end in
+          L [L (map sx_action m); L (map sxS (port_holds sendable hs d' m)); L (map sxS (port_holds sendable hs d' io))]
+      | None, _, _ => sxS "bad-case"
+      | _, None, _ => sxS "bad-case"
+      | _, _, None => sxS "bad-obs"
       end
   | _ => sxS "bad-input"
   end.
